@@ -29,6 +29,25 @@ CHECKS["C15"] = ("Proof: listing->ASCII BASIC shape and 7-bit; ASCII BASIC->list
                  "runs of moto_lst2bas/moto_bas2lst incl. non-ASCII and odd whitespace, exhaustive over {CR,LF,A,blank}^<=6/9.",
                  "Lean 4 theorems + model/code correspondence (differential, exhaustive small scope)", "7 C15")
 
+T = "Lean 4 theorems + model/code correspondence (differential CLI runs) + format oracle"
+CHECKS["C01"] = ("Proof: C01.roundtrip — for every list of readable sources with ordinary 8.3 names that fits, and any contents, the "
+                 "model's create writes an archive from which the model's extract writes every file byte for byte under its "
+                 "upper-cased name beside the archive / under --into, and list names exactly those files in order (composition of the "
+                 "writer invariant, the reader theorem on rendered tapes and the whole-file reader lemma). Tie: create/list/extract of "
+                 "the real tool vs the compiled model (status, stdout, archive bytes, files), all single lengths swept.", T, "7 C01")
+CHECKS["C03"] = ("Proof: C03.created_tape_is_k7 — whenever create writes, the archive equals the format description's encoding "
+                 "(Spec.K7.tape: 16x01 3C 5A frames back to back + zero padding, 21504 bytes); frame length/checksum laws, chunk "
+                 "bounds and concatenation, 8/3 field widths for every name length, kind/mode table; generated constants = format "
+                 "constants. Tie + oracle: real archives vs model, vs Spec.K7.tape, and through an independent strict Python decoder.", T, "7 C03")
+CHECKS["C08"] = ("Proof: C08.read_blocks(_padded) — on every tape emitted by the independent writer (leaders >= 3, idle gaps without 3C, "
+                 "payloads 0..254 of any content, any length) the model reader returns exactly the written blocks; "
+                 "list_extract_agree — whenever extract completes, list completes with the same report. Tie: tapes from a Python twin of "
+                 "the writer (checked byte-identical to Lean's render) through real list/extract vs model and abstract files.", T, "7 C08")
+CHECKS["C09"] = ("Proof: C09.accepted / refused / accepted_iff / missing_source / never_partial — the model accepts exactly the lists whose "
+                 "encoded size (35 per leader, 21 per block + payload) is < 21504, then writes the complete archive with status 0; "
+                 "otherwise status 1, diagnostic, no write at all. Tie: frontier stream with the overflow in every block kind, "
+                 "single-file lengths across the frontier, missing sources at every index, pre-existing target.", T, "7 C09")
+
 PENDING = {}
 
 
